@@ -194,6 +194,20 @@ Reconfigure(d) ==
                   attr |-> d.attr, value |-> d.value, out |-> OkOut(PNone),
                   group |-> "", role |-> "", gprop |-> "", aux |-> PNone]
 
+\* Model(...): a program creates another model object.  d.args names what it passes (PNone = argument omitted);
+\* Sem!Construct says what the object then holds.  The new object is the last of `models`, and its configuration
+\* is what was asked for.
+NoArgs == [mu |-> PNone, sigma |-> PNone, beta |-> PNone, kappa |-> PNone, tau |-> PNone, limit |-> PNone, gamma |-> PNone]
+NewModel(d) ==
+  LET id == Len(models) + 1
+      M  == Construct(d.kind, id, d.args)
+  IN  /\ depth < MaxDepth /\ depth' = depth + 1
+      /\ models' = Append(models, M)
+      /\ config' = Append(config, M)
+      /\ UNCHANGED heap
+      /\ last' = [op |-> "new_model", tid |-> 1, kind |-> d.kind, args |-> d.args, model |-> M, out |-> OkOut(PNone),
+                  group |-> "", role |-> "", gprop |-> "", aux |-> PNone]
+
 ---------------------------------------------------------------------------
 Init == /\ models = Models /\ config = Models /\ heap = Cast /\ last = InitObs /\ depth = 0
 
@@ -206,6 +220,7 @@ Next == \/ \E d \in RateCalls(models, heap) : Rate(d)
                 [] d.op = "cmp"      -> Compare(d)
                 [] d.op = "assign"   -> Assign(d)
                 [] d.op = "setattr"  -> Reconfigure(d)
+                [] d.op = "new_model" -> NewModel(d)
 
 Spec == Init /\ [][Next]_vars
 
@@ -226,7 +241,7 @@ Inv_Predict ==
   /\ (last.op = "win" /\ Ok(last))  => C09Single(last) = {}
   /\ (last.op = "draw" /\ Ok(last)) => C10Single(last) = {}
   /\ (last.op = "rank" /\ Ok(last)) => C11Single(last) = {}
-Inv_Obj == last.op \in {"rating", "create", "deepcopy", "cmp", "assign"} =>
+Inv_Obj == last.op \in {"rating", "create", "deepcopy", "cmp", "assign", "new_model"} =>
              ObjVerdict(last, [r \in {} |-> PNone], {"C18", "C20"}).fails \ {"C20.id_not_fresh"} = {}
 
 \* C15 as the property states it: the effective options are the call's arguments when given (0 and False are
@@ -290,7 +305,8 @@ Inv_C03 == RateOk =>
   IN  \A s \in AllSlots(last) : Y[s[1]][s[2]].mu = last.X[s[1]][s[2]].mu /\ Y[s[1]][s[2]].sigma = last.X[s[1]][s[2]].sigma
 
 \* the model objects never change except by their owner's hand (action property), and are what the owner configured
-ModelsNeverChange == [][models' = models \/ last'.op = "setattr"]_vars
+ModelsNeverChange == [][models' = models \/ last'.op = "setattr"
+                          \/ (last'.op = "new_model" /\ SubSeq(models', 1, Len(models)) = models)]_vars
 Inv_ModelsAsConfigured == models = config
 
 \* ---- emission of every explored transition, for replay into the real library
